@@ -6,6 +6,7 @@ import (
 	"fmt"
 	"go/types"
 	"os"
+	"regexp"
 	"sort"
 	"strings"
 
@@ -465,6 +466,9 @@ func (fv *FuncVC) applyContract(fr *Frame, st *State, reach string, callee *ssa.
 	fv.bindResults(names, res, rt)
 	env2 := &SpecEnv{fv: fv, names: names, cur: st, old: pre, pkg: pkgOf(callee), con: con, freeOf: callee}
 	for _, e := range con.Ensures {
+		if e.Local || fv.forgets(callee.Name(), e.Label) {
+			continue
+		}
 		fv.ctx.Assume(Implies(reach, fv.evalClause(env2, e)))
 	}
 	for _, e := range con.Records {
@@ -478,6 +482,8 @@ func (fv *FuncVC) pureApp(st *State, callee *ssa.Function, con *Contract, args [
 	base := "pf$" + sanitize(strings.TrimPrefix(funcKey(callee), modulePath+"/"))
 	return fv.pureAppNamed(st, base, con.Reads, pkgOf(callee), args, rt)
 }
+
+var boundVarRe = regexp.MustCompile(`![bq][0-9]`)
 
 func (fv *FuncVC) pureAppNamed(st *State, base string, reads []string, pkg *types.Package, args []Val, rt types.Type) Val {
 	var as []string
@@ -501,10 +507,24 @@ func (fv *FuncVC) pureAppNamed(st *State, base string, reads []string, pkg *type
 		name := fmt.Sprintf("%s%s", base, sanitize(c.Path))
 		fv.ctx.Decl(name, sorts, c.Sort)
 		res.C[i] = App(name, as...)
+		// name large applications so that later formulas stay small (not possible under a binder)
+		if (fv.binderDepth == 0 || !boundVarRe.MatchString(res.C[i])) && len(res.C[i]) > 120 {
+			if n, ok := fv.appNames[res.C[i]]; ok {
+				res.C[i] = n
+			} else {
+				n := fv.ctx.Fresh("app."+name, c.Sort)
+				fv.ctx.Assume(Eq(n, res.C[i]))
+				if fv.appNames == nil {
+					fv.appNames = map[string]string{}
+				}
+				fv.appNames[res.C[i]] = n
+				res.C[i] = n
+			}
+		}
 	}
 	// references returned by a pure function are treated as existing before the call (its results
 	// are memoised values as far as the caller can tell)
-	if fv.binderDepth == 0 {
+	if fv.binderDepth == 0 || !boundVarRe.MatchString(strings.Join(res.C, " ")) {
 		for _, f := range fv.m.TypeFacts(res, st.cnt) {
 			fv.ctx.Assume(f)
 		}
@@ -600,6 +620,11 @@ func (fv *FuncVC) applyAssigns(env *SpecEnv, st *State, items []AssignsItem, cal
 	items = fv.expandAssigns(items, env.pkg)
 	for _, it := range items {
 		switch {
+		case it.Computed:
+			if callee != nil {
+				ks, all := fv.v.BodyEffects(fv, callee)
+				fv.havocKeys(st, ks, all)
+			}
 		case it.All:
 			fv.havocKeys(st, nil, true)
 		case it.TypeT != "":
@@ -868,6 +893,9 @@ func (fv *FuncVC) applyIfaceContract(fr *Frame, st *State, reach string, con *Co
 	fv.bindResults(names, res, rt)
 	env2 := &SpecEnv{fv: fv, names: names, cur: st, old: pre, pkg: pkg, con: con}
 	for _, e := range con.Ensures {
+		if e.Local {
+			continue
+		}
 		fv.ctx.Assume(Implies(reach, fv.evalClause(env2, e)))
 	}
 	return res
@@ -1039,4 +1067,16 @@ func (fv *FuncVC) qualifyTypeText(text string, from *types.Package) string {
 		return text
 	}
 	return from.Name() + "." + text
+}
+
+func (fv *FuncVC) forgets(callee, label string) bool {
+	if fv.con == nil {
+		return false
+	}
+	for _, f := range fv.con.Forget {
+		if f == callee || f == callee+":"+label {
+			return true
+		}
+	}
+	return false
 }
